@@ -18,8 +18,6 @@ package rhp
 //@ extern (*rhp4.RPCSectorRootsRequest).Validate
 //@   assigns nothing
 //@   ensures result == nil ==> req.Length > 0 && req.Offset <= fc.Filesize / rhp4.SectorSize && req.Length <= fc.Filesize / rhp4.SectorSize - req.Offset
-//@ extern rhp4.ReviseForFundAccounts pure
-//@ extern rhp4.ReviseForReplenish pure
 //@ extern (consensus.State).ContractSigHash pure
 //@ extern (types.PublicKey).VerifyHash pure
 //@ extern (types.Currency).Cmp pure
@@ -27,9 +25,6 @@ package rhp
 //@ extern (types.Currency).Add pure
 //@ extern (types.Currency).IsZero pure
 //@ extern (*rhp4.RPCReplenishAccountsResponse).TotalCost pure
-//@ extern (rhp4.HostPrices).RPCReadSectorCost pure
-//@ extern (rhp4.HostPrices).RPCWriteSectorCost pure
-//@ extern (rhp4.HostPrices).RPCVerifySectorCost pure
 //
 // Message I/O: writing only reads the message; reading fills exactly the message object (with
 // arbitrary content) and nothing else the caller can see.
